@@ -34,6 +34,11 @@ def scenarios_for(prop, tier, rng):
         if prop == "C01":
             # exit 0 must imply convergence also when the router rejected a step
             fc, r2 = tlc_cases("fault", 0, f"{prop}-gen-fault"); gens.append(r2)
+        if prop == "C02":
+            xc, r3 = tlc_cases("foreign", 0, f"{prop}-gen-foreign"); gens.append(r3)
+            sc += agentgen.foreign_scenarios(xc, prop)
+            counts["foreign_installed_states"] = len(xc)
+        if prop == "C01":
             fc = [c for c in fc if c["target"] in ("load", "commit", "none") and c["kind"] in ("rpc-error", "no-ok", "none", "delayed-error")]
             sc += agentgen.fault_scenarios(fc, prop)
             counts["fault_cases"] = len(fc)
@@ -72,19 +77,27 @@ def design(prop, tier):
     if prop in DATA_INVS:
         a6 = '{"c", "d"}' if tier == "thorough" else '{"c"}'
         consts = f'CONSTANTS PNames = {{"p", "q"}} A4 = {{"a", "b"}} A6 = {a6} MaxRuns = 3 MaxLoads = 2 '
-        r = run_tlc("MCAgentRun", f"SPECIFICATION SpecData\n{consts} FixEmptyTerm = TRUE\nINVARIANTS {DATA_INVS[prop]}\nCHECK_DEADLOCK FALSE\n",
+        r = run_tlc("MCAgentRun", f"SPECIFICATION SpecData\n{consts} FixEmptyTerm = TRUE SkipNoReject = FALSE\nINVARIANTS {DATA_INVS[prop]}\nCHECK_DEADLOCK FALSE\n",
                     f"{prop}-design", workers=12 if tier == "thorough" else 6, timeout=1500)
         res.append(r)
         if prop == "C01":
             # the model must be able to express the defect that was repaired (name-only term for an empty family)
-            n = run_tlc("MCAgentRun", f"SPECIFICATION SpecData\n{consts} FixEmptyTerm = FALSE\nINVARIANTS InvReadBack\nCHECK_DEADLOCK FALSE\n",
+            n = run_tlc("MCAgentRun", f"SPECIFICATION SpecData\n{consts} FixEmptyTerm = FALSE SkipNoReject = FALSE\nINVARIANTS InvReadBack\nCHECK_DEADLOCK FALSE\n",
                         f"{prop}-design-asfound", workers=2)
             if n["violated"] != "InvReadBack":
                 raise ToolError(f"AgentRun.tla no longer reproduces the repaired C01 defect (see {n['out']})")
             n["violated"] = None; n["name"] += " (expected InvReadBack violation: seen)"
             res.append(n)
+        if prop == "C02":
+            # ... and the C02 defect: an installed policy without trailing reject was skipped by the reader and merged into
+            n = run_tlc("MCAgentRun", f"SPECIFICATION SpecData\n{consts} FixEmptyTerm = TRUE SkipNoReject = TRUE\nINVARIANTS InvUpdateSafe\nCHECK_DEADLOCK FALSE\n",
+                        f"{prop}-design-asfound", workers=2)
+            if n["violated"] != "InvUpdateSafe":
+                raise ToolError(f"AgentRun.tla no longer reproduces the repaired C02 defect (see {n['out']})")
+            n["violated"] = None; n["name"] += " (expected InvUpdateSafe violation: seen)"
+            res.append(n)
     if prop == "C04":
-        r = run_tlc("MCAgentRun", 'SPECIFICATION SpecProto\nCONSTANTS PNames = {"p"} A4 = {"a"} A6 = {} FixEmptyTerm = TRUE MaxRuns = 1 '
+        r = run_tlc("MCAgentRun", 'SPECIFICATION SpecProto\nCONSTANTS PNames = {"p"} A4 = {"a"} A6 = {} FixEmptyTerm = TRUE SkipNoReject = FALSE MaxRuns = 1 '
                     f'MaxLoads = {5 if tier == "thorough" else 3}\nINVARIANTS InvCommitOnlyAfter InvSuccessOnly\nPROPERTY NoCommitAfterFailure\nCHECK_DEADLOCK FALSE\n',
                     f"{prop}-design", workers=2)
         res.append(r)
